@@ -21,6 +21,12 @@ import (
 
 // Linked IP Proxy
 
+// Names of the headers that request a protocol upgrade.
+const (
+	hdrNameConnection = "Connection"
+	hdrNameUpgrade    = "Upgrade"
+)
+
 // linkedIPProxy proxies selected requests to a remote address.
 type linkedIPProxy struct {
 	httpProxy *httputil.ReverseProxy
@@ -52,6 +58,13 @@ func linkedIPHandler(
 		// listing their names in its Connection header.
 		r.Out.Header.Set(httphdr.XConnectingIP, r.In.Header.Get(httphdr.XConnectingIP))
 		r.Out.Header.Set(httphdr.XRequestID, r.In.Header.Get(httphdr.XRequestID))
+
+		// Don't forward protocol upgrade requests.  The proxied API is plain
+		// request-response, and if the backend agreed to switch protocols,
+		// the reverse proxy would give the client a raw connection to it,
+		// bypassing the path and header checks above.
+		r.Out.Header.Del(hdrNameConnection)
+		r.Out.Header.Del(hdrNameUpgrade)
 	}
 
 	// Use largely the same transport as http.DefaultTransport, but with a
